@@ -30,6 +30,8 @@ func init() {
 		// history: how many unrelated calls complete on the same group while the calls of interest are in flight
 		p.P["churn"] = r.Pick0(0, 0, 0, 0, 0, 7, 130, 1100, 2600)
 		p.P["pre"] = r.Range(1, 12)
+		p.P["long"] = r.Pick0(0, 0, 0, 0, 1, 2) // 1 = kilobyte tokens that differ only at their beginning, 2 = a long list of groups
+		p.P["mix"] = r.Intn(4)                  // 0 = callers use different endpoints of the wrapper for the same token at once
 		p.Choices = drawChoices(r, r.Range(10, 80))
 		return p
 	}
@@ -62,6 +64,7 @@ type exec struct {
 
 type call struct {
 	Caller  int
+	Method  string // wrapper workloads: the endpoint this caller used
 	Key     string
 	Subject string
 	Flat    string
@@ -349,6 +352,31 @@ func subjects(p *Plan, n int) []subjectSpec {
 	if p.P["distinct_tokens"] == 0 && n >= 2 {
 		out[1].access, out[1].refr = "access-other", "refresh-other"
 	}
+	switch p.P["long"] {
+	case 1:
+		// JWT-sized tokens: different tokens, same last few hundred bytes
+		for i := range out {
+			out[i].access += "." + strings.Repeat("x", 280)
+			out[i].refr += "." + strings.Repeat("y", 280)
+		}
+	case 2:
+		// a deployment with many allowed groups: the same long list asked about for different users
+		var many []string
+		for g := 0; g < 36; g++ {
+			many = append(many, fmt.Sprintf("group-%02d@example.com", g))
+		}
+		for i := range out {
+			if p.P["collide"] != 0 || i >= 2 {
+				out[i].groups = append([]string{}, many[:len(many)-(i/k)%2]...)
+			}
+		}
+	}
+	if p.P["mix"] == 0 {
+		// one credential used as both tokens, so that only the endpoint tells the questions apart
+		for i := range out {
+			out[i].refr = out[i].access
+		}
+	}
 	return out
 }
 
@@ -398,8 +426,10 @@ func checkWrapperHistory(v *verdict, s *Sched, calls []*call, execs []*exec, wra
 			if any == nil {
 				any = e
 			}
-			if e.Subject == c.Subject {
+			if e.Subject == c.Subject && (c.Method == "" || e.Key == c.Method) {
 				just = e
+			} else if e.Subject == c.Subject || (c.Method != "" && e.Key != c.Method) {
+				any, cause = e, "other-endpoint"
 			} else if c.Flat != "" && e.Flat == c.Flat {
 				any, cause = e, "questions-spell-the-same-with-separators"
 			}
@@ -415,7 +445,7 @@ func checkWrapperHistory(v *verdict, s *Sched, calls []*call, execs []*exec, wra
 				"scope", "wrapper", "wrapper", wrapper, "method", method, "cause", cause)
 			continue
 		}
-		if mutates && c.Sess != nil && just.LeaderOp != nil && just.LeaderOp.Sess != nil && just.LeaderOp.Return >= 0 {
+		if mutates && (c.Method == "" || c.Method == method) && c.Sess != nil && just.LeaderOp != nil && just.LeaderOp.Sess != nil && just.LeaderOp.Return >= 0 {
 			if f, ok := sessEq(c.Sess, just.LeaderOp.Sess); !ok {
 				v.violate("C16.A5-merged-caller-gets-session-updates", fmt.Sprintf("%s.%s: the merged caller's session differs from the executing caller's in %s after the call", wrapper, method, f),
 					"wrapper", wrapper, "method", method)
@@ -445,11 +475,15 @@ func runC16Proxy(p *Plan, res *world.Result) {
 		return nil
 	}
 	w := proxyproviders.NewSingleFlightProvider(inner, nullStatsd())
-	method := []string{"ValidateSessionState", "RefreshSession", "UserGroups"}[p.P["method"]%3]
+	method0 := []string{"ValidateSessionState", "RefreshSession", "UserGroups"}[p.P["method"]%3]
 	subs := subjects(p, p.P["n"])
 	for i, sp := range subs {
 		sp := sp
-		c := &call{Caller: i, Invoke: -1, Return: -1, Sess: sessionFor(sp)}
+		method := method0
+		if p.P["mix"] == 0 && method0 != "UserGroups" {
+			method = []string{"ValidateSessionState", "RefreshSession"}[(p.P["method"]+i)%2]
+		}
+		c := &call{Caller: i, Method: method, Invoke: -1, Return: -1, Sess: sessionFor(sp)}
 		switch method {
 		case "ValidateSessionState":
 			c.Subject = sp.access
@@ -474,7 +508,7 @@ func runC16Proxy(p *Plan, res *world.Result) {
 		})
 	}
 	s.Run(400, nil)
-	checkWrapperHistory(v, s, calls, execs, "proxy", method, method != "UserGroups")
+	checkWrapperHistory(v, s, calls, execs, "proxy", method0, method0 != "UserGroups" && p.P["mix"] != 0)
 	finish(s, res)
 	s.ReleaseAll()
 }
@@ -586,11 +620,16 @@ func runC16Auth(p *Plan, res *world.Result) {
 	}
 	w := authproviders.NewSingleFlightProvider(inner)
 	w.SetStatsdClient(nullStatsd())
-	method := []string{"ValidateSessionState", "RefreshSessionIfNeeded", "ValidateGroupMembership", "Revoke", "RefreshAccessToken"}[p.P["method"]%5]
+	method0 := []string{"ValidateSessionState", "RefreshSessionIfNeeded", "ValidateGroupMembership", "Revoke", "RefreshAccessToken"}[p.P["method"]%5]
 	subs := subjects(p, p.P["n"])
 	for i, sp := range subs {
 		sp := sp
-		c := &call{Caller: i, Invoke: -1, Return: -1, Sess: sessionFor(sp)}
+		method := method0
+		if p.P["mix"] == 0 && method0 != "ValidateGroupMembership" {
+			// the four endpoints that are asked with a token
+			method = []string{"ValidateSessionState", "Revoke", "RefreshSessionIfNeeded", "RefreshAccessToken"}[(p.P["method"]+i*(1+p.P["k"]%2))%4]
+		}
+		c := &call{Caller: i, Method: method, Invoke: -1, Return: -1, Sess: sessionFor(sp)}
 		switch method {
 		case "ValidateSessionState":
 			c.Subject = sp.access
@@ -621,7 +660,7 @@ func runC16Auth(p *Plan, res *world.Result) {
 		})
 	}
 	s.Run(400, nil)
-	checkWrapperHistory(v, s, calls, execs, "auth", method, method == "RefreshSessionIfNeeded")
+	checkWrapperHistory(v, s, calls, execs, "auth", method0, method0 == "RefreshSessionIfNeeded" && p.P["mix"] != 0)
 	finish(s, res)
 	s.ReleaseAll()
 }
